@@ -803,7 +803,12 @@ package runtime
 //@ requires sane: len(s) >= 0 && len(s) <= 1<<40 && (len(s) > 0 ==> valid(s.data, len(s)))
 //@ loop 1 invariant progress: 0 <= i && i <= len(s) && index <= uint(i) && (i > 0 ==> index >= 1)
 //@ loop 1 invariant buffer: len(data) == len(s) && cap(data) == len(s) && mine(data.data, 4*len(s))
+//@ loop 1 invariant first: index >= 1 ==> data[0] == utf8_dec_rune(s[0], s[1], s[2], s[3], len(s)) && i >= utf8_dec_size(s[0], s[1], s[2], s[3], len(s)) && (index == 1 ==> i == utf8_dec_size(s[0], s[1], s[2], s[3], len(s))) && (index >= 2 ==> i > utf8_dec_size(s[0], s[1], s[2], s[3], len(s)))
+//@ loop 1 invariant last: index >= 1 ==> exists k int :: 0 <= k && k < i && data[int(index) - 1] == utf8_dec_rune(s[k], s[k+1], s[k+2], s[k+3], len(s) - k) && i == k + utf8_dec_size(s[k], s[k+1], s[k+2], s[k+3], len(s) - k)
 //@ loop 1 decreases len(s) - i
 //@ ensures C05 empty: len(s) == 0 ==> len(result) == 0 && result.data == nil
 //@ ensures C05 length-bounds: len(s) > 0 ==> 1 <= len(result) && len(result) <= len(s) && cap(result) == len(result)
+//@ ensures C05 first-rune: len(s) > 0 ==> result[0] == utf8_dec_rune(s[0], s[1], s[2], s[3], len(s))
+//@ ensures C05 one-rune: len(s) > 0 && utf8_dec_size(s[0], s[1], s[2], s[3], len(s)) == len(s) ==> len(result) == 1
+//@ ensures C05 last-rune: len(s) > 0 ==> exists k int :: 0 <= k && k < len(s) && result[len(result) - 1] == utf8_dec_rune(s[k], s[k+1], s[k+2], s[k+3], len(s) - k) && len(s) == k + utf8_dec_size(s[k], s[k+1], s[k+2], s[k+3], len(s) - k)
 //@ modifies nothing
